@@ -84,6 +84,30 @@ class Ctx:
                 cx = 8 + (nx - 16) * (j + 0.5) / 3 + rng.uniform(-1.5, 1.5)
                 cy = 8 + (ny - 16) * (i + 0.5) / 3 + rng.uniform(-1.5, 1.5)
                 pos.append((cx, cy))
+        self.plain_case = plain
+        # ---- second list of generic axes ----
+        if not plain and rng.random() < 0.3:                      # (ix) exact integer / half-integer positions
+            pos = [(np.floor(x) + (0.5 if rng.random() < 0.5 else 0.0), np.floor(y) + (0.5 if rng.random() < 0.5 else 0.0))
+                   for (x, y) in pos]
+            self.axes['axis2_ix_half_integer_positions'] = 1
+        edge = None
+        if not plain and rng.random() < 0.4:                      # (viii) one object at / across ONE border or corner
+            where = ['left', 'right', 'bottom', 'top', 'll', 'lr', 'ul', 'ur'][int(rng.integers(0, 8))]
+            off = float(rng.choice([-1.0, 0.0, 0.5, 1.0, 2.5]))
+            ex = {'left': off, 'right': nx - 1 - off, 'll': off, 'ul': off, 'lr': nx - 1 - off, 'ur': nx - 1 - off}.get(
+                where, float(rng.uniform(9, nx - 10)))
+            ey = {'bottom': off, 'top': ny - 1 - off, 'll': off, 'lr': off, 'ul': ny - 1 - off, 'ur': ny - 1 - off}.get(
+                where, float(rng.uniform(9, ny - 10)))
+            edge = (ex, ey, float(rng.uniform(80, 300)))
+            self.axes['axis2_viii_edge_object_' + where] = 1
+        # (xi) every mask-like argument: as generated / all False / all True / a single True pixel
+        self.mask_mode = 'asis'
+        if not plain:
+            r = rng.random()
+            self.mask_mode = 'allfalse' if r < 0.3 else 'alltrue' if r < 0.4 else 'single' if r < 0.5 else 'asis'
+            if self.mask_mode != 'asis':
+                self.axes['axis2_xi_mask_' + self.mask_mode] = 1
+        self.narrow = bool(not plain and rng.random() < 0.6)      # (vii) dtype kinds beyond float64/int64/float32
         self.xy = np.array(pos)                       # (n, 2) x, y
         self.fwhm = float(rng.uniform(2.6, 3.4))
         sig = self.fwhm / 2.3548200450309493
@@ -94,6 +118,8 @@ class Ctx:
         img = np.zeros(self.shape)
         for (x, y), a in zip(pos, amp):
             img += a * np.exp(-((xx - x) ** 2 + (yy - y) ** 2) / (2 * sig * sig))
+        if edge is not None:
+            img += edge[2] * np.exp(-((xx - edge[0]) ** 2 + (yy - edge[1]) ** 2) / (2 * sig * sig))
         noise = rng.normal(0.0, 1.0, self.shape)
         cond = self.cond
         if cond == 'clean':
@@ -140,6 +166,10 @@ class Ctx:
                 if mask is not None:
                     mask[r, c] = False
             self.nonfinite_unmasked = int(np.sum(~np.isfinite(img) & (~mask if mask is not None else True)))
+        if edge is not None:
+            # the border object is the LAST entry of xy / amp (the harness-side pixel edits above never use it)
+            self.xy = np.vstack([self.xy, [[edge[0], edge[1]]]])
+            self.amp = np.append(self.amp, edge[2])
         if self.scale != 1.0:
             img = img * self.scale
             err = err * self.scale
@@ -157,7 +187,10 @@ class Ctx:
         # represented objects
         self.data = self.arr(img, 'data', primary=True)
         self.error = self.arr(err, 'error', secondary=True)
-        self.mask = None if mask is None else self.boolarr(mask, 'mask')
+        if mask is None and self.mask_mode != 'asis':
+            self.mask = self.boolarr(np.zeros(self.shape, bool), 'mask')     # (xi) a mask argument in every condition
+        else:
+            self.mask = None if mask is None else self.boolarr(mask, 'mask')
         yk, xk = np.mgrid[-3:4, -3:4]
         self.raw_kernel = np.exp(-(xk ** 2 + yk ** 2) / (2 * sig * sig))
 
@@ -247,15 +280,36 @@ class Ctx:
             out = np.asfortranarray(a)
         elif rep == 'int':
             if allow_int and (primary or not secondary) and np.all(np.isfinite(a)):
-                dt = [np.int32, np.int64, np.int16][int(self.rng.integers(0, 3))]
-                out = np.rint(np.clip(a, -30000, 30000)).astype(dt)
+                dts = [np.int32, np.int64, np.int16]
+                if getattr(self, 'narrow', False):
+                    dts = [np.int8, np.int16, np.int32, np.int64]
+                    if not np.any(a < 0):
+                        dts += [np.uint8, np.uint16, np.uint32, np.uint64]
+                dt = dts[int(self.rng.integers(0, len(dts)))]
+                info = np.iinfo(dt)
+                v = np.rint(a)
+                if getattr(self, 'narrow', False):
+                    self.axes['axis2_vii_dtype_' + np.dtype(dt).name] = 1
+                    if primary and info.max < 2 ** 31 and np.nanmax(np.abs(v)) > 0 and self.rng.random() < 0.5:
+                        v = np.rint(v * (0.98 * info.max / np.nanmax(np.abs(v))))       # values near the dtype limit
+                        self.axes['axis2_vii_near_dtype_limit'] = 1
+                    elif primary and info.max > 2 ** 53 and not np.any(a < 0) and self.rng.random() < 0.3:
+                        v = v + float(2 ** 31 if self.rng.random() < 0.5 else 2 ** 53)  # integers beyond 2**31 / 2**53
+                        self.axes['axis2_vii_big_integers'] = 1
+                out = np.clip(v, max(info.min, -2.0 ** 62), min(info.max, 2.0 ** 62)).astype(dt)
             else:
                 out = a
         elif rep == 'float32':
             # (iii) narrow or non-native dtypes
-            dt = [np.float32, np.float32, '>f8', '>f4'][int(self.rng.integers(0, 4))] if self.axes is not None else np.float32
-            out = a.astype(dt)
-            if dt not in (np.float32,):
+            dts = [np.float32, np.float32, '>f8', '>f4']
+            if getattr(self, 'narrow', False):
+                dts.append(np.float16)
+            dt = dts[int(self.rng.integers(0, len(dts)))]
+            with np.errstate(all='ignore'):
+                out = a.astype(dt)
+            if dt is np.float16:
+                self.axes['axis2_vii_dtype_float16'] = 1
+            elif dt is not np.float32:
                 self.axes['big_endian'] = 1
         else:
             raise ValueError(rep)
@@ -264,6 +318,14 @@ class Ctx:
 
     def boolarr(self, m, name):
         m = np.array(m, dtype=bool)
+        mode = getattr(self, 'mask_mode', 'asis')
+        if mode == 'allfalse':
+            m = np.zeros(m.shape, bool)
+        elif mode == 'alltrue':
+            m = np.ones(m.shape, bool)
+        elif mode == 'single' and m.size:
+            m = np.zeros(m.shape, bool)
+            m.flat[int(self.rng.integers(0, m.size))] = True
         if self.rep == 'view':
             out = self._view(m)
         elif self.rep == 'fortran':
@@ -283,6 +345,19 @@ class Ctx:
         self._ro(a)
         return self.own(a, name)
 
+    def labels(self, a, name):
+        """A label / segmentation array in one of several integer dtypes (vii)."""
+        a = np.asarray(a)
+        dts = [np.int64]
+        if getattr(self, 'narrow', False):
+            dts = [np.int64, np.int32, np.int16, np.uint16, np.uint32, np.uint64, np.intp]
+            if a.size and a.max() < 127:
+                dts += [np.uint8, np.int8]
+        dt = dts[int(self.rng.integers(0, len(dts)))]
+        if dt is not np.int64:
+            self.axes['axis2_vii_label_dtype_' + np.dtype(dt).name] = 1
+        return self.plain(a.astype(dt), name, dtype=dt)
+
     def par(self, value, name, kinds=('int', 'float', 'list', 'intview', 'plain'), force=None):
         """A small parameter-like argument (box size, shape, radii, labels, bounds ...) as a caller-owned
         object: int ndarray, float ndarray, strided view of an int ndarray, list, or the plain Python value.
@@ -301,9 +376,23 @@ class Ctx:
             if not isinstance(v, list):
                 return v
             return self.own(v, name + '_list')
+        if k == 'tuple':
+            v = np.asarray(value).tolist()
+            return tuple(v) if isinstance(v, list) else v
         if k == 'float':
+            if getattr(self, 'narrow', False) and self.rng.random() < 0.3:
+                self.axes['axis2_vii_param_float32'] = 1
+                return self.own(np.array(value, dtype=np.float32), name + '_f4')
             return self.own(np.array(value, dtype=float), name + '_f8')
-        a = np.array(value, dtype=[np.int64, np.int32, np.intp][int(self.rng.integers(0, 3))])
+        idt = [np.int64, np.int32, np.intp]
+        if getattr(self, 'narrow', False):
+            va = np.asarray(value)
+            idt += [np.int16]
+            if va.size and va.min() >= 0:
+                idt += [np.uint16, np.uint32, np.uint64] + ([np.uint8] if va.max() < 256 else [])
+        a = np.array(value, dtype=idt[int(self.rng.integers(0, len(idt)))])
+        if a.dtype not in (np.dtype(np.int64), np.dtype(np.int32)):
+            self.axes['axis2_vii_param_dtype_' + a.dtype.name] = 1
         if k == 'intview' and a.ndim == 1:
             big = np.full(2 * a.size + 1, -7, dtype=a.dtype)
             big[1::2] = a
